@@ -86,7 +86,12 @@ def run(ctx):
         ds = d.ds
         # SHOC conventions find their depth coordinates by fixed names
         nm1, nm2 = gen.DEPTH_NAMES.get(d.family, (None, None))
-        ds, sp = gen.add_depth(rng, ds, dim='k', name=nm1, second_name=nm2)
+        # every fourth dataset stores its depth as whole numbers in an integer type: int16, or uint16 (positive down only)
+        idt = [None, None, 'i2', None, None, None, 'u2', None][n % 8]
+        ikw = {} if idt is None else ({'int_dtype': idt, 'second': False} if idt == 'i2' else
+                                      {'int_dtype': idt, 'second': False, 'up': False, 'positive': 'attr'})
+        ds, sp = gen.add_depth(rng, ds, dim='k', name=nm1, second_name=nm2, **ikw)
+        ctx.count(f'depth dtype:{idt or "float64"}')
         dim = sp['dim']
         # data: a level tag on the depth dimension only, and variables on the grid with the depth dimension anywhere
         ds['level_tag'] = xarray.DataArray(numpy.arange(sp['n'], dtype='i8'), dims=[dim])
@@ -115,6 +120,9 @@ def run(ctx):
         ctx.count(f'bounds:{sp["coords"][0]["bounds"] is not None}')
         ctx.count(f'dimension_coordinate:{names[0] == dim}')
         for pd, dts in itertools.product([None, True, False], repeat=2):
+            if idt == 'u2' and pd is False:
+                ctx.count('unsigned depth asked to become negative: not representable, not exercised')
+                continue
             exprs.append(f'(let d := {lit} in (show_dim (normalize {opt_bool(pd)} {opt_bool(dts)} d), '
                          f'show_dim (twice {opt_bool(pd)} {opt_bool(dts)} d)))')
             plans.append((d, ds, sp, names, pd, dts, via_ems, lit))
